@@ -173,6 +173,10 @@ def run(ctx):
     same = [("1FTJ+ligand", "1FTJ+ligand", gap, d, order, "same-chain")
             for gap, d, order in ((30000, (1, 0, 0), 0), (1500000, (0, 1, 0), 1), (26000, (0, 0, -1), 1), (400000, (1, 1, 0), 0))]
     combos += same if ctx.thorough() else [same[ctx.seed % 2]]
+    # the largest separations the coordinate field admits: corner to corner (about 18700 A) and end to end of one axis
+    far = [("frag-3SGB-I", "frag-1FTJ", 9000000, (1, 1, 1), 0, False), ("frag-1FTJ", "frag-3SGB-I", 10800000, (0, 1, 0), 1, False),
+           ("frag-3SGB-I", "frag-3SGB-I", 10800000, (-1, 0, 0), 0, False)]
+    combos += far if ctx.thorough() else [far[ctx.seed % 2]]
     # a part holding a group without interaction atoms (ASP with CG but no carboxylate oxygens), in both file orders
     e = C.chain_lines("3SGB", "E", 0, 25)
     ps["frag-3SGB-E-ASP-without-oxygens"] = [ln for ln in e if not (ln[17:20] == "ASP" and ln[12:16].strip() in ("OD1", "OD2"))]
